@@ -2640,22 +2640,23 @@ def namespace_to_flowir(
     if name_errors:
         raise experiment.model.errors.DSLInvalidError.from_errors(name_errors)
 
+    used_names: typing.Set[typing.Tuple[int, str]] = set()
+
     for _, comp in components.items():
         assert isinstance(comp.scope.template, Component)
 
-        if comp.step_name not in component_names:
-            component_names[comp.step_name] = 0
-            name = comp.step_name
-        else:
-            component_names[comp.step_name] += 1
-            prior = component_names[comp.step_name]
-            name = "-".join((comp.step_name, number_to_roman_like_numeral(prior)))
-
-
-        match = pattern_name.fullmatch(name)
+        match = pattern_name.fullmatch(comp.step_name)
         match_groups = match.groupdict()
+        stage = int(match_groups.get("stage") or 0)
+        name = match_groups["name"]
 
-        uid_to_name[tuple(comp.scope.location)] = (int(match_groups.get("stage") or 0), match_groups["name"])
+        # VV: resolve name conflicts by appending roman numerals, skip names that other steps already use
+        while (stage, name) in used_names:
+            component_names[comp.step_name] = component_names.get(comp.step_name, 0) + 1
+            name = "-".join((match_groups["name"], number_to_roman_like_numeral(component_names[comp.step_name])))
+
+        used_names.add((stage, name))
+        uid_to_name[tuple(comp.scope.location)] = (stage, name)
 
         comp.flowir['name'] = uid_to_name[tuple(comp.scope.location)][1]
         comp.flowir['stage'] = uid_to_name[tuple(comp.scope.location)][0]
